@@ -613,17 +613,44 @@ def check_parsers(rep, prog):
     fn = prog.func(MISC, 'make_data_dict_vcf')
     rep.saw_function(m.rel + ':make_data_dict_vcf')
     t = ast.unparse(fn)
-    # allele order == call order
-    oko = has(t, "snp_dict['segregating'] = (ref, alt)") and t.count("refcalls += gt[::2].count('0')") == 2 and t.count("altcalls += gt[::2].count('1')") == 2 and \
-        t.count('calls_dict[pop] = (refcalls, altcalls)') == 2 and t.count('refcalls, altcalls = calls_dict[pop]') == 2
-    deto = "segregating = (ref, alt); calls = (count of '0', count of '1')"
+    # allele order == call order: role flow (sa/roles.py) - which columns / which genotype counts reach which position of what is stored
+    from sa import roles as RF
+
+    def is_split_line(e):
+        return isinstance(e, ast.Call) and isinstance(e.func, ast.Attribute) and e.func.attr == 'split' and \
+            (len(e.args) == 0 or (len(e.args) == 1 and isinstance(e.args[0], ast.Constant) and e.args[0].value in ('\t', None)))
+
+    def vcf_source(e, ev):
+        if isinstance(e, ast.Call) and isinstance(e.func, ast.Attribute) and e.func.attr == 'count' and len(e.args) == 1 and isinstance(e.args[0], ast.Constant) and e.args[0].value in ('0', '1'):
+            return {'count of 0'} if e.args[0].value == '0' else {'count of 1'}
+        if is_split_line(e):
+            return {'FIELDS'}
+        if isinstance(e, ast.Subscript):
+            bv = ev(e.value)
+            if isinstance(bv, RF.S) and bv.roles == {'FIELDS'}:
+                sl = e.slice
+                if isinstance(sl, ast.Constant) and isinstance(sl.value, int) and not isinstance(sl.value, bool) and sl.value >= 0:
+                    return {'column %d' % sl.value}
+                if isinstance(sl, ast.Slice) and sl.step is None and all(isinstance(x_, ast.Constant) and isinstance(x_.value, int) and x_.value >= 0 for x_ in (sl.lower, sl.upper)) and \
+                        0 < sl.upper.value - sl.lower.value <= 8:
+                    return RF.T([RF.S({'column %d' % k}) for k in range(sl.lower.value, sl.upper.value)])
+        return None
+    rf = RF.RoleFlow(fn, vcf_source).run()
+    seg = RF.stored_under(rf, 'segregating')
+    calls = RF.elements_stored_under(rf, 'calls')
+    want_seg = RF.T([RF.S({'column 3'}), RF.S({'column 4'})])
+    want_calls = RF.T([RF.S({'count of 0'}), RF.S({'count of 1'})])
+    oko = seg == want_seg and calls == want_calls
+    deto = "segregating = (REF column, ALT column); calls = (count of '0', count of '1') on every path that stores them"
+    unrec = False
     if not oko:
-        # recognisably wrong (an exchanged pair), or written in a way this rule does not follow
-        flat_t = t.replace(' ', '')
-        swapped = [x for x in ("snp_dict['segregating']=(alt,ref)", "refcalls+=gt[::2].count('1')", "altcalls+=gt[::2].count('0')", 'calls_dict[pop]=(altcalls,refcalls)', 'altcalls,refcalls=calls_dict[pop]')
-                   if x in flat_t]
-        half = t.count("refcalls += gt[::2].count('0')") != t.count("altcalls += gt[::2].count('1')")
-        deto = ('exchanged: %s' % swapped[0]) if swapped else ('reference and alternative calls are counted at different numbers of sites' if half else 'genotype counting statements not found in the form the rule follows')
+        known = {'column 3', 'column 4', 'count of 0', 'count of 1'}
+        got = (RF.flat(seg) if seg is not None else set()) | (RF.flat(calls) if calls is not None else set())
+        if seg is None or calls is None or not isinstance(seg, RF.T) or not isinstance(calls, RF.T) or not (got & known):
+            unrec = True
+            deto = 'genotype counting statements not found in the form the rule follows (segregating %s, calls %s)' % (seg, calls)
+        else:
+            deto = 'segregating holds %s, calls hold %s: exchanged or mixed positions' % (seg, calls)
     rep.ob('R-IDX', 'make_data_dict_vcf allele order', oko, deto, m.rel, fn.lineno, what="calls are stored in the order of 'segregating'")
     # outgroup
     okg = has(t, "for field in info:\n    if field.startswith('AA=') or field.startswith('AA_ensembl=') or field.startswith('AA_chimp='):\n        outgroup_allele = field.split('=')[1].upper().split('|')[0]") and has(t, "outgroup_allele = field.split('=')[1].upper().split('|')[0]") and \
@@ -665,10 +692,58 @@ def check_parsers(rep, prog):
     # SNP-file parser
     f2 = prog.func(MISC, 'make_data_dict')
     rep.saw_function(m.rel + ':make_data_dict')
-    t2 = ast.unparse(f2)
-    ok2 = has(t2, "data_this_snp['segregating'] = (spl[2].upper(), spl[allele2_index].upper())") and has(t2, 'calls_dict[pop] = (int(spl[3 + ii]), int(spl[allele2_index + 1 + ii]))') and \
-        has(t2, "pops = header.split()[3:allele2_index]") and has(t2, "data_this_snp['outgroup_allele'] = spl[1][1].upper()") and has(t2, "allele2_index = header.split().index('Allele2')")
-    rep.ob('R-IDX', 'make_data_dict columns', ok2, 'allele1 at column 2 with its counts at 3.., allele2 at the Allele2 column with its counts after it', m.rel, f2.lineno,
+
+    def snp_source(e, ev):
+        if isinstance(e, ast.Call) and isinstance(e.func, ast.Attribute) and e.func.attr == 'index' and len(e.args) == 1 and isinstance(e.args[0], ast.Constant) and e.args[0].value == 'Allele2':
+            return {'A2'}
+        if is_split_line(e):
+            return {'FIELDS'}
+        if isinstance(e, ast.Subscript):
+            bv = ev(e.value)
+            sl = e.slice
+            if isinstance(bv, RF.S) and bv.roles == {'FIELDS'}:
+                if isinstance(sl, ast.Slice):
+                    if sl.step is None and isinstance(sl.lower, ast.Constant) and sl.upper is not None and RF.flat(ev(sl.upper)) == {'A2'} and isinstance(sl.upper, ast.Name):
+                        return {'columns %s..A2' % sl.lower.value}
+                    return None
+                # constant + A2 + loop variable, in any order
+                consts, names, a2 = 0, [], 0
+                stack = [sl]
+                while stack:
+                    x_ = stack.pop()
+                    if isinstance(x_, ast.BinOp) and isinstance(x_.op, ast.Add):
+                        stack += [x_.left, x_.right]
+                    elif isinstance(x_, ast.Constant) and isinstance(x_.value, int) and not isinstance(x_.value, bool):
+                        consts += x_.value
+                    elif isinstance(x_, ast.Name):
+                        if RF.flat(ev(x_)) == {'A2'}:
+                            a2 += 1
+                        else:
+                            names.append(x_.id)
+                    else:
+                        return None
+                if a2 > 1 or len(names) > 1:
+                    return None
+                return {'column %s%d%s' % ('A2+' if a2 else '', consts, ('+' + names[0]) if names else '')}
+            if isinstance(bv, RF.S) and len(bv.roles) == 1 and list(bv.roles)[0].startswith('column ') and isinstance(sl, ast.Constant) and isinstance(sl.value, int):
+                return {'%s[%d]' % (list(bv.roles)[0], sl.value)}
+        return None
+    rf2 = RF.RoleFlow(f2, snp_source).run()
+    seg2 = RF.stored_under(rf2, 'segregating')
+    calls2 = RF.elements_stored_under(rf2, 'calls')
+    keys2 = RF.keys_stored_under(rf2, 'calls')
+    og2 = RF.stored_under(rf2, 'outgroup_allele')
+    ok2 = False
+    det2 = 'segregating %s, calls %s under %s, outgroup allele %s' % (seg2, calls2, keys2, og2)
+    if isinstance(seg2, RF.T) and isinstance(calls2, RF.T) and len(seg2.items) == 2 and len(calls2.items) == 2 and all(isinstance(x_, RF.S) and len(x_.roles) == 1 for x_ in seg2.items + calls2.items):
+        s0, s1 = [list(x_.roles)[0] for x_ in seg2.items]
+        c0, c1 = [list(x_.roles)[0] for x_ in calls2.items]
+        mm0 = re.fullmatch(r'column 3\+(\w+)', c0)
+        mm1 = re.fullmatch(r'column A2\+1\+(\w+)', c1)
+        ok2 = s0 == 'column 2' and s1 == 'column A2+0' and bool(mm0 and mm1 and mm0.group(1) == mm1.group(1)) and \
+            keys2 == RF.S({'columns 3..A2'}) and og2 == RF.S({'column 1[1]'})
+    unrec2 = not ok2 and (seg2 is None or calls2 is None or not RF.flat(seg2) or not RF.flat(calls2))
+    rep.ob('R-IDX', 'make_data_dict columns', ok2, ('not recognised: ' if unrec2 else '') + det2 if not ok2 else 'allele1 at column 2 with its counts at 3.., allele2 at the Allele2 column with its counts after it', m.rel, f2.lineno,
            what="calls are stored in the order of 'segregating'; the outgroup allele is the middle base of the outgroup context")
 
 
